@@ -144,9 +144,10 @@ func VerifC37_BackupAcrossCompaction() {
 	for _, id := range ids {
 		sf, sd := storage.VhRead(src, id)
 		df, dd := storage.VhRead(dst, id)
-		rt.Assert(sf == df, "backup-serves-the-same-set-of-blobs-after-source-compaction@known:backup-diverges-after-source-compaction")
+		same := sf == df
 		if sf && df {
-			rt.Assert(rt.BytesEq(sd, dd), "backup-serves-identical-content-after-source-compaction@known:backup-diverges-after-source-compaction")
+			same = rt.BytesEq(sd, dd)
 		}
+		rt.Assert(same, "backup-serves-what-the-source-serves-after-source-compaction@known:backup-diverges-after-source-compaction")
 	}
 }
